@@ -248,17 +248,25 @@ func expandReadsScript(body string, isHeap func(name string) bool, allocRef map[
 		out[i] = "(assert " + simplifyIte(x.expand(parsed[i].L[1]), map[string]bool{}, &budget).String() + ")"
 	}
 	// drop definitions that are no longer referenced (iterating: a heap may be referenced by a later dropped one)
+	uses := map[string]int{} // heap name -> number of lines mentioning it
+	lineSyms := make([][]string, len(out))
+	for j, l := range out {
+		seen := map[string]bool{}
+		tokenizeSyms(l, func(t string) {
+			if x.defs[t] != nil && !seen[t] {
+				seen[t] = true
+				lineSyms[j] = append(lineSyms[j], t)
+				uses[t]++
+			}
+		})
+	}
 	for changed := true; changed; {
 		changed = false
 		for i, nm := range defLine {
-			used := false
-			for j, l := range out {
-				if j != i && l != "" && symbolUsed(l, nm) {
-					used = true
-					break
+			if uses[nm] <= 1 { // only its own definition
+				for _, t := range lineSyms[i] {
+					uses[t]--
 				}
-			}
-			if !used {
 				out[i] = ""
 				delete(defLine, i)
 				changed = true
